@@ -455,7 +455,7 @@ Definition w_tampered : tree := El 1 (Some w_id) 3 [El 9 None 1 []; w_sig].
 Definition w_wrapped : tree := El 1 (Some (s2l "rq-evil")) 15 [El 9 None 1 []; w_sig; El 16 None 7 [w_content]].
 Definition w_unsigned : tree := w_content.
 Definition w_doc (t : tree) (dest : option str) (dt : Z) : reqdoc :=
-  Build_reqdoc t (Some V20) dest (Some (1790000000 + dt)%Z) true (Some w_sp) [5].
+  Build_reqdoc t (Some V20) dest (Some (1790000000 + dt)%Z) true (Some w_sp) [5] [].
 Definition w_run (pre fixd want ovc : bool) (d : reqdoc) : result (option reqdoc) :=
   parse_request pre fixd (w_cfg want ovc) KAuthn BPost (WText (Xml d)).
 
@@ -536,11 +536,157 @@ Definition w_aa_cfg (own : bool) : rcfg :=
   mk_cfg own CAa [(CAa, [(s2l "attribute_service", [EP (s2l "https://idp.example.org/aa/soap") (s2l "urn:oasis:names:tc:SAML:2.0:bindings:SOAP")])])]
          w_aa_secs 0%Z 1790000000%Z true [(w_sp, [[{| kd_use := Some SIGNING; kd_certs := [5] |}]])] true None true.
 Definition w_query : reqdoc :=
-  Build_reqdoc (El 3 (Some w_id) 4 [El 9 None 1 []; El 11 None 5 []]) (Some V20) None (Some 1790000000%Z) true (Some w_sp) [].
+  Build_reqdoc (El 3 (Some w_id) 4 [El 9 None 1 []; El 11 None 5 []]) (Some V20) None (Some 1790000000%Z) true (Some w_sp) [] [].
 
 Lemma options_witness :
   fst (lookup_opts CAa w_aa_secs) = true /\
   parse_request false true (w_aa_cfg false) KAttrQ BSoap (WSoap (SoapPart w_query)) = Ok (Some w_query) /\
   root_signed (d_tree w_query) = false /\
   parse_request false true (w_aa_cfg true) KAttrQ BSoap (WSoap (SoapPart w_query)) = Err (E "IncorrectlySigned").
+Proof. vm_compute. repeat split; reflexivity. Qed.
+
+(* ------------------------------------------------------------------ *)
+(* kind-specific optional content: no step reads it, for any kind       *)
+(* ------------------------------------------------------------------ *)
+Lemma unravel_set_opts o k b w :
+  unravel k b (wire_set_opts o w) =
+  match unravel k b w with Ok x => Ok (xml_set_opts o x) | Err e => Err e end.
+Proof.
+  unfold unravel. destruct w as [|x|[| | | |d]]; destruct b; cbn [wire_set_opts]; try reflexivity;
+    try (destruct (kind_soap k); reflexivity).
+  destruct (kind_soap k); cbn [negb]; [|reflexivity].
+  cbn [set_opts d_tree].
+  destruct (root_name (d_tree d)) as [n|]; [|reflexivity].
+  destruct (N.eqb n (kind_name k)); reflexivity.
+Qed.
+
+Lemma check_sig_set_opts pre fixd c d nm ovc o :
+  check_sig pre fixd c (set_opts o d) nm ovc = check_sig pre fixd c d nm ovc.
+Proof. reflexivity. Qed.
+
+Lemma loads_set_opts pre fixd c k must ovc x o :
+  loads pre fixd c k must ovc (xml_set_opts o x) =
+  match loads pre fixd c k must ovc x with Ok d => Ok (set_opts o d) | Err e => Err e end.
+Proof.
+  unfold loads, correctly_signed_message. destruct x as [|d]; [reflexivity|].
+  cbn [xml_set_opts]. change (d_tree (set_opts o d)) with (d_tree d).
+  destruct (root_name (d_tree d)) as [n|]; [|reflexivity].
+  destruct (negb (N.eqb n (kind_name k))); [reflexivity|].
+  destruct (negb (root_signed (d_tree d))).
+  - destruct must; [reflexivity|]. change (d_valid (set_opts o d)) with (d_valid d). destruct (d_valid d); reflexivity.
+  - rewrite check_sig_set_opts. destruct (check_sig pre fixd c d n ovc) as [u|e].
+    + change (d_valid (set_opts o d)) with (d_valid d). destruct (d_valid d); reflexivity.
+    + destruct (str_eqb e (E "TypeError")); reflexivity.
+Qed.
+
+Lemma verify_set_opts c addrs d o :
+  verify c addrs (set_opts o d) = res_set_opts o (verify c addrs d).
+Proof.
+  unfold verify. cbn [set_opts d_version d_destination d_issue_instant].
+  destruct (negb (match d_version d with Some v => str_eqb v V20 | None => false end)); [reflexivity|].
+  destruct (truthy (d_destination d) && negb (nilb addrs) &&
+            negb (match d_destination d with Some x => addr_mem x addrs | None => false end)); [reflexivity|].
+  destruct (d_issue_instant d) as [t|]; [|reflexivity].
+  destruct (issue_instant_ok c t); reflexivity.
+Qed.
+
+Theorem blind_to_optional_content pre fixd c k b w o :
+  parse_request pre fixd c k b (wire_set_opts o w) = res_set_opts o (parse_request pre fixd c k b w).
+Proof.
+  unfold parse_request. rewrite unravel_set_opts.
+  destruct (unravel k b w) as [x|e]; [|reflexivity].
+  rewrite loads_set_opts.
+  destruct (loads pre fixd c k (c_want_signed c || c_only_valid_cert c) (c_only_valid_cert c) x) as [d|e]; [|reflexivity].
+  apply verify_set_opts.
+Qed.
+
+(* refusal form of handed_over_only_if_valid, over the kind parameter: none of the reasons to refuse is
+   lifted for some kind or by some optional content *)
+Theorem no_kind_specific_exception pre c k b w d :
+  must_be_refused c k b d -> parse_request pre true c k b w <> Ok (Some d).
+Proof.
+  intros Hr H.
+  destruct (handed_over_only_if_valid _ _ _ _ _ _ H) as (_ & Hroot & Hvalid & Hver & Hdest & (t & Ht & Hw) & _ & Hwant).
+  destruct Hr as [Hi|[(x & Hx & Hne & Ha & Hnin)|[(Hwt & Hs)|[Hv|[Hv|Hn]]]]].
+  - exact (Hi t Ht Hw).
+  - destruct Hdest as [Hd|[Hd|[Hd|(y & Hy & Hin)]]].
+    + congruence.
+    + rewrite Hx in Hd. inversion Hd. congruence.
+    + congruence.
+    + rewrite Hx in Hy. inversion Hy; subst y. exact (Hnin Hin).
+  - rewrite (Hwant Hwt) in Hs. discriminate.
+  - exact (Hv Hver).
+  - congruence.
+  - exact (Hn Hroot).
+Qed.
+
+(* ------------------------------------------------------------------ *)
+(* one long-lived receiver, a sequence of messages                      *)
+(* ------------------------------------------------------------------ *)
+Definition handed_by (pre fixd : bool) (c : rcfg) (e : op * reqdoc) : Prop :=
+  match e with ((k, b, w), d) => parse_request pre fixd c k b w = Ok (Some d) end.
+
+Theorem history_invariant pre fixd c ops :
+  forall handed, Forall (handed_by pre fixd c) handed -> Forall (handed_by pre fixd c) (run_history pre fixd c ops handed).
+Proof.
+  induction ops as [|[[k b] w] r IH]; intros handed Hh; [exact Hh|].
+  cbn [run_history]. apply IH.
+  destruct (parse_request pre fixd c k b w) as [[d|]|e] eqn:Ep; try exact Hh.
+  apply Forall_app. split; [exact Hh|]. constructor; [exact Ep|constructor].
+Qed.
+
+(* what came before changes nothing: the messages handed over out of [ops1 ++ ops2] are those of [ops1] followed by
+   those of [ops2] taken in on their own *)
+Theorem history_split pre fixd c ops1 ops2 :
+  forall handed, run_history pre fixd c (ops1 ++ ops2) handed =
+                 run_history pre fixd c ops2 (run_history pre fixd c ops1 handed).
+Proof.
+  induction ops1 as [|[[k b] w] r IH]; intros handed; [reflexivity|].
+  cbn [app run_history]. apply IH.
+Qed.
+
+Lemma run_history_app pre fixd c ops :
+  forall handed, run_history pre fixd c ops handed = handed ++ run_history pre fixd c ops [].
+Proof.
+  induction ops as [|[[k b] w] r IH]; intros handed; [cbn; rewrite app_nil_r; reflexivity|].
+  cbn [run_history].
+  destruct (parse_request pre fixd c k b w) as [[d|]|e]; try apply IH.
+  cbn [app]. rewrite (IH (handed ++ [((k, b, w), d)])). rewrite (IH [((k, b, w), d)]). rewrite <- app_assoc. reflexivity.
+Qed.
+
+(* nothing is handed over that was not received *)
+Lemma history_ops_only pre fixd c ops k b w d :
+  In ((k, b, w), d) (run_history pre fixd c ops []) -> In (k, b, w) ops.
+Proof.
+  induction ops as [|[[k0 b0] w0] r IH]; [intros []|].
+  cbn [run_history]. rewrite run_history_app. intros Hin. apply in_app_or in Hin as [Hin|Hin].
+  - destruct (parse_request pre fixd c k0 b0 w0) as [[d0|]|e]; try contradiction.
+    cbn in Hin. destruct Hin as [Hin|[]]. inversion Hin. left. reflexivity.
+  - right. exact (IH Hin).
+Qed.
+
+(* witnesses: a LogoutRequest with NotOnOrAfter an hour ahead *)
+Definition w_slo : str := s2l "https://idp.example.org/slo/post".
+Definition w_lcfg (want : bool) : rcfg :=
+  Build_rcfg CIdp
+    [(CIdp, [(s2l "single_logout_service", [EP w_slo (s2l "urn:oasis:names:tc:SAML:2.0:bindings:HTTP-POST")])])]
+    want false 60%Z 1790000000%Z true
+    [(w_sp, [[{| kd_use := Some SIGNING; kd_certs := [5] |}]])] true None true.
+Definition w_logout (dest : option str) (dt : Z) (o : list optattr) : reqdoc :=
+  Build_reqdoc (El 2 (Some w_id) 6 [El 9 None 1 []; El 12 None 3 []]) (Some V20) dest (Some (1790000000 + dt)%Z) true (Some w_sp) [] o.
+Definition w_noa_future : list optattr := [(s2l "NotOnOrAfter", Some (1790000000 + 3600)%Z); (s2l "Reason", None)].
+
+Lemma logout_witness :
+  let run want d := parse_request true true (w_lcfg want) KLogout BPost (WText (Xml d)) in
+  run false (w_logout (Some w_slo) 0 w_noa_future) = Ok (Some (w_logout (Some w_slo) 0 w_noa_future)) /\
+  run false (w_logout (Some w_slo) (-86461) w_noa_future) = Ok None /\
+  run false (w_logout (Some w_slo) 86460 w_noa_future) = Ok None /\
+  run false (w_logout (Some (s2l "https://idp.example.org/slo/soap")) 0 w_noa_future) = Err (E "OtherError") /\
+  run true (w_logout (Some w_slo) 0 w_noa_future) = Err (E "IncorrectlySigned") /\
+  run_history true true (w_lcfg false)
+    [(KLogout, BPost, WText (Xml (w_logout (Some w_slo) 0 w_noa_future)));
+     (KLogout, BPost, WText (Xml (w_logout (Some w_slo) (-86461) w_noa_future)));
+     (KLogout, BPost, WText (Xml (w_logout (Some w_slo) 0 [])))] [] =
+    [((KLogout, BPost, WText (Xml (w_logout (Some w_slo) 0 w_noa_future))), w_logout (Some w_slo) 0 w_noa_future);
+     ((KLogout, BPost, WText (Xml (w_logout (Some w_slo) 0 []))), w_logout (Some w_slo) 0 [])].
 Proof. vm_compute. repeat split; reflexivity. Qed.
